@@ -9,6 +9,13 @@
 #include <unistd.h>
 #include <dirent.h>
 
+#ifndef INOVESA_ALLOW_PS_RESET
+#define INOVESA_ALLOW_PS_RESET 1
+#endif
+#include "PS/PhaseSpace.hpp"
+#include "IO/Display.hpp"
+#include <fftw3.h>
+
 // main() of /repo/src/main.cpp, compiled with -Dmain=inovesa_main
 int inovesa_main(int argc, char** argv);
 
@@ -71,6 +78,13 @@ LaunchResult run_launch(const Launch& l) {
         setenv("TZ", "UTC", 1);
         signal(SIGINT, SIG_DFL);
         alarm((unsigned)l.timeout_s);
+        // a launch is a fresh process life: undo whatever API-mode work of this worker left in the
+        // program's process-wide state (grid size latch, display flags, in-memory FFT wisdom)
+        vfps::PhaseSpace::resetSize();
+        vfps::Display::silent_mode = false;
+        vfps::Display::abort = false;
+        fftwf_forget_wisdom();
+        fftw_forget_wisdom();
         simrt::Config c = l.rt;
         c.active = true;
         c.summary_path = l.tag + ".sum";
